@@ -636,9 +636,93 @@ func hostileInputs(its []item, maxLen int) [][]byte {
 	return out
 }
 
+// reuse: a buffer that carried one message is Reset and used for the next one, for message sizes
+// around every power-of-two / allocation threshold up to 1 MiB and every constructor: after Reset the
+// buffer is empty (Len, Bytes, reads fail) and the next message round-trips exactly.
+func reuse(c *seq.Ctx) {
+	sizes := []int{0, 1, 2, 63, 64, 65, 511, 512, 513, 1023, 1024, 1025, 4095, 4096, 4097, 32767, 32768, 65535, 65536, 65537, 131072, 1<<20 + 1}
+	type mkT struct {
+		name string
+		mk   func() *bytex.BufferX
+	}
+	mks := []mkT{{"NewBufferX", bytex.NewBufferX}}
+	for _, n := range sizes {
+		n := n
+		mks = append(mks, mkT{fmt.Sprintf("NewSizedBufferX(%d)", n), func() *bytex.BufferX { return bytex.NewSizedBufferX(n) }})
+	}
+	for _, mk := range mks {
+		for _, fill := range sizes {
+			for _, how := range []string{"one-write", "string", "bytes"} {
+				if how == "bytes" && fill > 70000 {
+					continue
+				}
+				for _, consumed := range []int{0, 1, fill} {
+					if consumed > fill || (consumed == 1 && fill < 2) {
+						continue
+					}
+					bad := func() (b string) {
+						defer func() {
+							if x := recover(); x != nil {
+								b = fmt.Sprintf("panic: %v", x)
+							}
+						}()
+						buf := mk.mk()
+						for cycle := 0; cycle < 2; cycle++ {
+							switch how {
+							case "one-write":
+								buf.Write(make([]byte, fill))
+							case "string":
+								if fill >= 4 {
+									buf.WriteString(strings.Repeat("s", fill-4))
+								} else {
+									buf.Write(make([]byte, fill))
+								}
+							default:
+								for i := 0; i < fill; i++ {
+									buf.WriteU8(byte(i))
+								}
+							}
+							if buf.Len() != fill {
+								return fmt.Sprintf("cycle %d: Len() = %d after writing %d bytes", cycle, buf.Len(), fill)
+							}
+							if consumed > 0 {
+								if _, err := buf.ReadN(consumed); err != nil {
+									return fmt.Sprintf("cycle %d: ReadN(%d) of %d buffered bytes: %v", cycle, consumed, fill, err)
+								}
+							}
+							buf.Reset()
+							if buf.Len() != 0 || len(buf.Bytes()) != 0 {
+								return fmt.Sprintf("cycle %d: after Reset of a buffer that held %d bytes Len() = %d, len(Bytes()) = %d", cycle, fill, buf.Len(), len(buf.Bytes()))
+							}
+							if _, err := buf.ReadU8(); err == nil {
+								return fmt.Sprintf("cycle %d: ReadU8 succeeds on a buffer that was just Reset (it held %d bytes)", cycle, fill)
+							}
+							buf.WriteU32(0xA1B2C3D4)
+							buf.WriteString("h\xc3\xa9llo")
+							buf.WriteVarI64(-3)
+							buf.ReWriteU32(0, 0x01020304)
+							u, e1 := buf.ReadU32()
+							st, e2 := buf.ReadString()
+							v, e3 := buf.ReadVarI64()
+							if e1 != nil || e2 != nil || e3 != nil || u != 0x01020304 || st != "h\xc3\xa9llo" || v != -3 || buf.Len() != 0 {
+								return fmt.Sprintf("cycle %d: the message written after Reset (the buffer had held %d bytes) reads back as (%#x,%q,%d) errs (%v,%v,%v), %d bytes left", cycle, fill, u, st, v, e1, e2, e3, buf.Len())
+							}
+							buf.Reset()
+						}
+						return ""
+					}()
+					c.Case(fmt.Sprintf("reuse/%s/ok=%v", how, bad == ""), bad, "a Reset buffer is not empty / does not carry the next message", func() interface{} {
+						return map[string]interface{}{"constructor": mk.name, "filled": fill, "how": how, "consumed": consumed}
+					})
+				}
+			}
+		}
+	}
+}
+
 func main() {
 	r := ev.Start("C10")
-	r.Rule("round trip: every sequence of typed writes (length <= L over ~95 boundary-valued items) read back through the writing buffer, a fresh readable buffer and the stream reader; hostile: every reader method on all byte strings up to a length over {00,01,7f,80,ff}, every truncation of every valid encoding, oversized varints/length prefixes, against reference decoders; fragmentation: every composition (chunking) of inputs up to a length with both legal end-of-stream styles, stream reader vs buffer reader; distinct = outcome classes (family, kind, ok/error)")
+	r.Rule("round trip: every sequence of typed writes (length <= L over ~95 boundary-valued items) read back through the writing buffer, a fresh readable buffer and the stream reader; hostile: every reader method on all byte strings up to a length over {00,01,7f,80,ff}, every truncation of every valid encoding, oversized varints/length prefixes, against reference decoders; fragmentation: every composition (chunking) of inputs up to a length with both legal end-of-stream styles, stream reader vs buffer reader; reuse: every constructor x message sizes around every allocation threshold up to 1 MiB x three ways of filling x 0/1/all bytes consumed, Reset, emptiness, next message round trip, two cycles; distinct = outcome classes (family, kind, ok/error)")
 	r.Assume("reference decoders: little-endian fixed width, encoding/binary varints, u32 length prefix", "an io.Reader may return fewer bytes than asked and may return (n, io.EOF) with the last bytes")
 	its := items()
 	L := r.Pick(3, 4)
@@ -646,6 +730,7 @@ func main() {
 		{Name: "hostile", Run: func(c *seq.Ctx) { hostile(c, its, hostileInputs(its, r.Pick(5, 6))) }},
 		{Name: "fragmentation", Run: func(c *seq.Ctx) { fragmentation(c, its, r.Pick(12, 14)) }},
 		{Name: "rewrite", Run: func(c *seq.Ctx) { rewrite(c, its) }},
+		{Name: "reset-and-reuse", Run: reuse},
 	}
 	// round trips are sharded by first item
 	for sh := 0; sh < 16; sh++ {
